@@ -337,6 +337,7 @@ class ByzantinePacketizer(ObservingPacketizer):
 
     mutate_out = None    # fn(packetizer, payload bytes) -> list of payload bytes to send instead
     filter_in = None     # fn(packetizer, ptype, payload bytes) -> True to swallow
+    frame_out = None     # fn(packetizer, payload bytes, cleartext packet bytes) -> cleartext packet bytes
 
     def send_message(self, data):
         f = self.mutate_out
@@ -344,9 +345,17 @@ class ByzantinePacketizer(ObservingPacketizer):
             return ObservingPacketizer.send_message(self, data)
         from paramiko import Message
         for q in f(self, data.asbytes()):
-            m = Message()
-            m.add_bytes(q)
+            if len(q) == 0:
+                m = _EmptyMessage()      # a packet without payload (not even a type byte)
+            else:
+                m = Message()
+                m.add_bytes(q)
             ObservingPacketizer.send_message(self, m)
+
+    def _build_packet(self, payload):
+        pkt = ObservingPacketizer._build_packet(self, payload)
+        f = self.frame_out
+        return f(self, payload, pkt) if f is not None else pkt
 
     def read_message(self):
         while True:
@@ -357,8 +366,22 @@ class ByzantinePacketizer(ObservingPacketizer):
             return ptype, m
 
 
-def byzantine_packetizer(side, log, mutate_out=None, filter_in=None):
+class _EmptyBytes(bytes):
+    """b"" that survives Packetizer.send_message's look at the type byte (used for its debug log only)."""
+
+    def __getitem__(self, i):
+        return 0 if isinstance(i, int) else bytes.__getitem__(self, i)
+
+
+class _EmptyMessage:
+    def asbytes(self):
+        return _EmptyBytes()
+
+
+def byzantine_packetizer(side, log, mutate_out=None, filter_in=None, frame_out=None):
     d = {"obs_side": side, "obs_log": log}
+    if frame_out is not None:
+        d["frame_out"] = staticmethod(frame_out)
     if mutate_out is not None:
         d["mutate_out"] = staticmethod(mutate_out)
     if filter_in is not None:
